@@ -14,6 +14,11 @@ CLAIMED = {
    text="Unbounded Coq theorems: for every message and every schedule of short writes / zero-length acceptances / injected errors, the model either refuses an over-long message with nothing written, or puts exactly the reference frame on the stream and returns Ok, or returns an error having written a strict prefix while the schedule really contained a failing step; every progressing schedule delivers every byte; header length = bytes emitted; written frames deframe (C13) to the message. Model tied to /repo by running extracted model and real tpkt/x224 writers over a scheduled adversarial sink (debug + release) and by an independent Python reference of framing + write_all on the implementation's outcomes.",
    design_ref="DESIGN.md section 6, C14",
    note="Trusted: Coq kernel, extraction (ExtrOcamlBasic), OCaml driver, Rust harness, std write_all contract; the serialisation of the message itself (model/data.rs write) is covered by C18, here the message is an opaque byte block."),
+ "C12": dict(
+   technique="Coq proof (case analysis of the state machine model + induction over histories) ; model tied to /repo by differential correspondence and an independent reference automaton",
+   text="Unbounded Coq theorems over every frame (any bytes) and every history of reads and input attempts: one read either changes nothing and writes nothing or advances along exactly one edge of the activation sequence on the PDU that edge requires, writing exactly one confirm-active + finalization on the demand-active edge only; the state only moves along the sequence; a history ending inside the input window has a last font-map entry with no state change since; outside the window input is refused/dropped silently; writes never move the state; bitmap events only inside the window. The model (message interpreter Msg.v, layouts, Global.v) is tied to /repo on every run by replaying all histories up to length 3 (5 in thorough) over the 11-letter alphabet plus random longer ones, with an input attempt after every step, against the real RdpClient, and judging the implementation with an independent reference automaton and strict PDU decoder.",
+   design_ref="DESIGN.md section 6, C12",
+   note="Trusted: Coq kernel, extraction, OCaml driver, Rust harness + 3 cfg hooks, hand-written layouts/model validated by correspondence (not generated from source), gen/rdp.py reference encoders."),
 }
 
 NOT_YET = {}
